@@ -99,7 +99,17 @@ def _ev(x, env):
     if isinstance(x, Sym):
         if not x.args:
             return env[x.op]
+        if len(x.args) == 1:
+            v = _ev(x.args[0], env)
+            return -v if x.op == "Neg" and v is not None else None
         l, r = _ev(x.args[0], env), _ev(x.args[1], env)
+        if l is None or r is None:
+            return None
+        if x.op in ("Div", "Rem"):
+            if r == 0:
+                return None
+            q = abs(l) // abs(r) * (1 if (l < 0) == (r < 0) else -1)      # i32 division truncates towards zero
+            return q if x.op == "Div" else l - r * q
         return {"Mul": l * r, "Add": l + r, "Sub": l - r}.get(x.op)
     return x
 
@@ -382,4 +392,101 @@ def rule_maxmin(ctx, rule_op, rule_contagion):
             if not prom:
                 ctx.report(rule_contagion, key, "%s returns an operand as it came in (%r), not the one promoted together with the other "
                            "operand: (max 1 2.0) would be exact" % (name, got), where_of(f))
+    return decided
+
+
+# ------------------------------------------------------------------------------------------------ floor / ceiling of a ratio
+
+
+def rounding_table(fb, fname):
+    """Number::floor / Number::ceiling on the ratio a/b with symbolic components: every test on a symbolic value is explored both
+    ways; each path ends in Number::Integer(expression over a, b built from i32 + - * / %)."""
+    from .absint import Sym
+    import itertools
+    nv = dict((n, i) for i, n in fb.variants("values::Number"))
+    f = fb.find("values::Number::" + fname)
+    paths, seen = [], set()
+    for schedule in itertools.product((True, False), repeat=7):
+        a, b = Sym("a"), Sym("b")
+        arg = Enum(nv["Rational"], [a, b])
+        arg.name = "Rational"
+        pc, k = [], [0]
+
+        def symcmp(op, x, y):
+            i = k[0]
+            k[0] += 1
+            val = schedule[i] if i < len(schedule) else True
+            pc.append((op, x, y, val))
+            return val
+
+        def icpt(mc, cn, args, tt, g):
+            end = cn.rsplit("::", 1)[-1]
+            if any(isinstance(x, Sym) for x in args):
+                if end in ("eq", "ne", "lt", "le", "gt", "ge") and len(args) == 2:
+                    return symcmp(end, args[0], args[1])
+                ops = {"mul": "Mul", "add": "Add", "sub": "Sub", "div": "Div", "rem": "Rem", "neg": "Neg", "div_euclid": None, "rem_euclid": None}
+                if end in ops and "ops::" in cn and ops[end]:
+                    return Sym(ops[end], *args)
+            return NOT
+        mc = Machine(fb, intercept=icpt, max_visits=3)
+        absint.SYM_COMPARE = symcmp
+        try:
+            res = mc.run(f, [arg])
+        except (absint.Stuck, absint.Loop) as e:
+            paths.append({"stuck": str(e)})
+            continue
+        finally:
+            absint.SYM_COMPARE = None
+        sig = (tuple((p_[0], repr(p_[1]), repr(p_[2]), p_[3]) for p_ in pc), repr(res))
+        if sig in seen:
+            continue
+        seen.add(sig)
+        paths.append({"tests": pc, "result": res})
+    return f, paths
+
+
+def rule_rounding(ctx, rule):
+    """floor(a/b) is the greatest integer not above a/b, ceiling(a/b) the least not below, for every exact ratio with a positive
+    denominator (C09-denominator-sign): whether truncating division has to be corrected depends only on the sign of a and on
+    whether b divides a, so the grid a in -7..7, b in 1..4 contains every case a formula built from + - * / % and comparisons
+    with small constants can distinguish."""
+    fb = ctx.fb()
+    from .ctx import where_of
+    from .absint import Sym
+    nv = dict((n, i) for i, n in fb.variants("values::Number"))
+    decided = 0
+    for fname in ("floor", "ceiling"):
+        try:
+            f, paths = rounding_table(fb, fname)
+        except mir.AnchorMissing as e:
+            ctx.undecided(rule, fname, str(e))
+            continue
+        good = [p for p in paths if "stuck" not in p]
+        if not good or any("stuck" in p for p in paths):
+            ctx.undecided(rule, fname, "cannot follow Number::%s on a symbolic ratio (%s)" % (fname, next((p["stuck"] for p in paths if "stuck" in p), "no path")), where_of(f))
+            continue
+        decided += 1
+        bad = None
+        cases = 0
+        for a in range(-7, 8):
+            for b in range(1, 5):
+                env = {"a": a, "b": b}
+                want = a // b if fname == "floor" else -((-a) // b)
+                hit = [p for p in good if all(_ev(t[1], env) is not None and _ev(t[2], env) is not None and
+                                              _holds(t[0], _ev(t[1], env), _ev(t[2], env)) == t[3] for t in p["tests"])]
+                for p in hit[:1]:
+                    cases += 1
+                    res = p["result"]
+                    val = res.fields[0] if isinstance(res, Enum) and res.variant == nv["Integer"] and res.fields else None
+                    got = _ev(val, env) if isinstance(val, (Sym, int)) else None
+                    if got != want and bad is None:
+                        bad = "(%s %d/%d): after the tests %s the function returns %s = %s, the %s is %d" % (
+                            fname, a, b, [(t[0], repr(t[1]), repr(t[2]), t[3]) for t in p["tests"]], repr(val), got,
+                            "greatest integer not above it" if fname == "floor" else "least integer not below it", want)
+                if not hit and bad is None:
+                    bad = "(%s %d/%d): no path of the function accepts this ratio" % (fname, a, b)
+        ctx.inst(rule, fname + "/ratio", {"paths": len(good), "grid_cases": cases})
+        ctx.oblige(bad is None)
+        if bad:
+            ctx.report(rule, fname + "/ratio", "Number::%s on an exact ratio a/b (b > 0) is wrong: %s" % (fname, bad), where_of(f))
     return decided
